@@ -53,6 +53,11 @@ AllocWhy(ev) == IF ev.op = "none" THEN ""
 
 \* ---------------------------------------------------------------- C07
 Usable(call) == call.outcome = "ok" /\ call.apply = "ok" /\ call.marshal = "ok"
+\* the returned spec was applied and marshaled under the captured ServerName (apply, marshal) and under names
+\* 3 bytes shorter .. 3 bytes longer, none, and a much longer one (variants): errors are fine, a panic is not
+NoPanic(call) == /\ call.apply \in Outcomes /\ call.marshal \in (Outcomes \cup {"skipped"})
+                 /\ \A v \in DOMAIN call.variants : /\ call.variants[v].apply \in Outcomes
+                                                     /\ call.variants[v].marshal \in (Outcomes \cup {"skipped"})
 RawJudge(ev) ==
   LET o == Caps[ev.ckey]
       m == ApplySplices(o, ev.sp)
@@ -60,9 +65,7 @@ RawJudge(ev) ==
       why == IF ~Bound(ev, o, m) THEN "binding"
              ELSE IF \E j \in DOMAIN ev.calls : ev.calls[j].outcome \notin Outcomes THEN "importer-panic"
              ELSE IF ev.extw.outcome \notin (Outcomes \cup {"skipped"}) THEN "extension-write-panic"
-             ELSE IF valid /\ \E j \in DOMAIN ev.calls : /\ ev.calls[j].outcome = "ok"
-                                                          /\ \/ ev.calls[j].apply \notin Outcomes
-                                                             \/ ev.calls[j].marshal \notin (Outcomes \cup {"skipped"})
+             ELSE IF valid /\ \E j \in DOMAIN ev.calls : ev.calls[j].outcome = "ok" /\ ~NoPanic(ev.calls[j])
                   THEN "valid-hello-unusable"
              ELSE IF ev.op = "none" /\ ~valid THEN "capture-invalid"
              ELSE IF ev.op = "none" /\ ~\E j \in DOMAIN ev.calls : Usable(ev.calls[j]) THEN "capture-unusable"
